@@ -2,6 +2,7 @@
   The textbook batch statistics the properties refer to, over any field.
 -/
 import Gpv.Proofs.AccumAlg
+set_option linter.unusedSectionVars false
 namespace Gpv
 variable {K : Type} [Field K] [CharZero K]
 
